@@ -2,7 +2,7 @@ import RTV.Drv.Proto
 import RTV.Model.Re
 import RTV.Model.Seq
 import RTV.Model.SeqEnv
-import RTV.Gen.Regexes
+import RTV.Gen.RegexIndex
 import RTV.Gen.CharTables
 /-! Driver handlers for L1 `Re` and the sequence model (C13).
   re.find <name> <real|ascii> <cps>          -> a:b;a:b   spans of `findAll` (finditer)  | err:KeyError
